@@ -3272,7 +3272,7 @@ int64_t ExpressionEvaluator::evaluate_function_call_impl(const ASTNode *node) {
                 return 0;
             }
 
-            void *ptr = std::malloc(static_cast<size_t>(size));
+            void *ptr = std::calloc(1, static_cast<size_t>(size));
             if (ptr == nullptr) {
                 std::cerr << "[malloc] Error: allocation failed for size "
                           << size << std::endl;
@@ -3729,7 +3729,7 @@ int64_t ExpressionEvaluator::evaluate_function_call_impl(const ASTNode *node) {
                 return 0;
             }
 
-            void *ptr = std::malloc(static_cast<size_t>(size));
+            void *ptr = std::calloc(1, static_cast<size_t>(size));
             if (ptr == nullptr) {
                 std::cerr << "[malloc] Error: allocation failed for size "
                           << size << std::endl;
